@@ -23,10 +23,12 @@ int spawn(std::function<void()> body, const char *name); // new virtual thread, 
 bool isFinished(int tid);
 void markTerminated(int tid);                    // thread is never scheduled again (QThread::terminate)
 // schedule point BEFORE performing `op`. Returns true if the operation was resumed by its timeout (canTimeout) instead of by `enabled`.
-bool point(const char *op, std::function<bool()> enabled = nullptr, bool voluntary = false, bool canTimeout = false);
+// longOp: the operation stands for work of arbitrary duration (a handler's body): wall-clock time may pass here, see the time model in vsched.cpp
+bool point(const char *op, std::function<bool()> enabled = nullptr, bool voluntary = false, bool canTimeout = false, bool longOp = false);
 void progress();                                 // something observable happened (a delivery, an operation completed): resets the livelock watchdog
 void observe(const std::string &line);           // appended to the execution's report (outcome = all lines)
 void violation(const std::string &key, const std::string &what);
+extern std::function<void()> atFinish;           // engine hook, runs first when an execution ends
 extern std::function<void(const std::string &status)> atEnd; // harness oracle, runs in the child when the execution ends (any status)
 long stepsSoFar();
 int ownerQueryHook();                            // unused placeholder
